@@ -337,14 +337,14 @@ Lemma insert_mem fs h t cap : h_src h = SrcMem cap ->
            (h_snap h) (Some (match h_indexable h with Some b => b | None => has_id t end))
            (if match h_indexable h with Some b => b | None => has_id t end then true else h_stale h)
            (h_pending h) (match h_msig h with Some s => Some s | None => Some (t_sig t) end)
-           (h_cap h) (h_used h + t_size t)).
+           (h_cap h) (h_used h + t_size t) (h_iters h)).
 Proof. intros E. unfold insert. rewrite E. reflexivity. Qed.
 
 Lemma insert_pending fs h t p : h_src h = SrcFile p -> h_pending h = true -> h_indexable h = None ->
   insert fs h t true =
   (fupd p (NFile (mkNc [item_of t true] (t_sig t) (has_id t) [])) fs,
    mkH (SrcFile p) (h_mode h) (S (h_next h)) ((h_next h, mkItem (t_tag t) (t_fid t) true) :: h_cache h) (h_mem h)
-       (h_snap h) (Some (has_id t)) (if has_id t then true else h_stale h) false (h_msig h) (h_cap h) (h_used h)).
+       (h_snap h) (Some (has_id t)) (if has_id t then true else h_stale h) false (h_msig h) (h_cap h) (h_used h) (h_iters h)).
 Proof. intros E P Ix. unfold insert. rewrite E, P, Ix. reflexivity. Qed.
 
 Lemma insert_open fs h t p f b : h_src h = SrcFile p -> h_pending h = false ->
@@ -352,7 +352,7 @@ Lemma insert_open fs h t p f b : h_src h = SrcFile p -> h_pending h = false ->
   insert fs h t true =
   (fupd p (NFile (mkNc (f_items f ++ [item_of t true]) (f_sig f) (f_hasidx f) (f_table f))) fs,
    mkH (SrcFile p) (h_mode h) (S (h_next h)) ((h_next h, mkItem (t_tag t) (t_fid t) true) :: h_cache h) (h_mem h)
-       (h_snap h) (Some b) (if b then true else h_stale h) false (h_msig h) (h_cap h) (h_used h)).
+       (h_snap h) (Some b) (if b then true else h_stale h) false (h_msig h) (h_cap h) (h_used h) (h_iters h)).
 Proof. intros E P L Ix. unfold insert. rewrite E, P, L, Ix. reflexivity. Qed.
 
 Lemma spec_add_reject s h t : s_h s = Some h -> sh_mode h <> MRead -> acceptable (s_def s h) t = false ->
@@ -371,7 +371,7 @@ Lemma spec_add_accept s h t : s_h s = Some h -> sh_mode h <> MRead -> acceptable
                  (Some (mkSH (SLMem (items ++ [(t_tag t, t_fid t)]) cap
                                     (match def with Some d => Some d | None => Some (t_sig t, has_id t) end)
                                     (used + t_size t))
-                             (sh_mode h) (sh_cap h))),
+                             (sh_mode h) (sh_cap h) (sh_iters h))),
             OIdx (length items))
   | SLFile p =>
       if match sh_cap h with Some cp => cp <? t_size t | None => false end then (s, OErr ETooLarge) else
@@ -403,7 +403,7 @@ Lemma accept_mem fs h t cap : Inv (mkW fs (Some h)) -> h_src h = SrcMem cap ->
   abs_h (snd (insert fs h t true))
   = mkSH (SLMem (map strip (h_mem h) ++ [(t_tag t, t_fid t)]) cap
                 (match (match h_msig h, h_indexable h with Some s, Some b => Some (s, b) | _, _ => None end) with
-                 | Some d => Some d | None => Some (t_sig t, has_id t) end) (h_used h + t_size t)) (h_mode h) (h_cap h) /\
+                 | Some d => Some d | None => Some (t_sig t, has_id t) end) (h_used h + t_size t)) (h_mode h) (h_cap h) (h_iters h) /\
   h_next h = length (map strip (h_mem h)).
 Proof.
   intros I Es A. pose proof (inv_handle _ I _ eq_refl) as Hi; cbn in Hi.
@@ -533,6 +533,15 @@ Proof.
     intros Ei. destruct (Fr Ei) as [|(h0 & E0 & S0 & T0)]; [now left|right].
     cbn in E0. injection E0 as <-. eexists. split; [reflexivity|]. cbn. auto.
   - intros h0 E0. injection E0 as <-. exact H.
+Qed.
+
+Lemma Inv_set_iters fs h its : Inv (mkW fs (Some h)) -> Inv (mkW fs (Some (set_iters h its))).
+Proof.
+  intros I. split; cbn.
+  - intros p n L. destruct (inv_files _ I _ _ L) as (f & E & Ok & Fr). exists f. repeat split; auto.
+    intros Ei. destruct (Fr Ei) as [|(h0 & E0 & S0 & T0)]; [now left|right].
+    cbn in E0. injection E0 as <-. eexists. split; [reflexivity|]. cbn. auto.
+  - intros h0 E0. injection E0 as <-. exact (inv_handle _ I _ eq_refl).
 Qed.
 
 Lemma abs_set_cache fs h c : abs (mkW fs (Some (set_cache h c))) = abs (mkW fs (Some h)).
@@ -686,6 +695,25 @@ Proof.
       injection E as <- <-. destruct (do_evict_shape keep h) as (c & Ec).
       pose proof (hinv_do_evict fs h keep Hi) as H2. rewrite Ec in *.
       split; [now apply Inv_set_cache|]. now rewrite abs_set_cache.
+    + (* IterNew: a fresh cursor for iterator k; nothing else changes *)
+      injection E as <- <-. split; [now apply Inv_set_iters|]. reflexivity.
+    + (* IterNext: only iterator k's cursor moves *)
+      unfold spec_step. cbn [abs s_h w_h option_map].
+      change (mkSW (abs_fs (w_fs (mkW fs (Some h)))) (Some (abs_h h))) with (abs (mkW fs (Some h))).
+      rewrite (s_items_abs (mkW fs (Some h)) h eq_refl Hi). cbn [w_fs].
+      replace (sh_iters (abs_h h)) with (h_iters h) by reflexivity.
+      destruct (alookup Nat.eqb k (h_iters h)) as [cur|] eqn:Ek; [|injection E as <- <-; auto].
+      rewrite (store_len_cur fs h Hi) in E. rewrite nth_error_strip.
+      destruct (get_item_spec fs h cur Hi (Inv_files_ok _ I)) as (c & G1 & G2 & G3).
+      destruct (cur <? length (cur_items fs h)) eqn:Elt.
+      * apply Nat.ltb_lt in Elt.
+        destruct (nth_error (cur_items fs h) cur) as [x|] eqn:N; [|apply nth_error_None in N; lia].
+        destruct (get_item fs h cur) as [h1 rr]. cbn in G1, G2, G3. subst h1 rr.
+        injection E as <- <-. split.
+        -- apply Inv_set_iters. now apply Inv_set_cache.
+        -- reflexivity.
+      * apply Nat.ltb_ge in Elt. apply nth_error_None in Elt. rewrite Elt.
+        injection E as <- <-. auto.
   - (* no handle *)
     destruct o; try contradiction Nm; cbn [step w_h w_fs] in E;
       try (injection E as <- <-; split; [assumption|reflexivity]).
